@@ -32,3 +32,14 @@ try:
 finally:
     shutil.rmtree(d)
 # (the "mutual star imports (lint *)" case above is the recorded known finding C08-R4)
+
+# ---- second batch (reported by an independent agent on the unmodified tree)
+d = tempfile.mkdtemp()
+try:
+    w('xa.py', 'from xb import B\nclass A(B):\n    pass\n'); w('xb.py', 'from xa import A\nclass B(A):\n    pass\n')
+    run('cross-module inheritance cycle', assist, Project([d]), 'from xa import A\nA().x', (2, 5), os.path.join(d, 'm.py'))
+    run('self.a = self.b; self.b = self.a', assist, Project([d]),
+        'class C:\n    def f(self):\n        self.a = self.b\n        self.b = self.a\n        self.a.x', (5, 15), os.path.join(d, 'm.py'))
+    run('starred tuple target', lint, Project([d]), 'x = [(1, 2), 3]\n*(a, b), c = x\nprint(a, b, c)\n', os.path.join(d, 'm.py'))
+finally:
+    shutil.rmtree(d)
